@@ -1,12 +1,11 @@
 SPECIFICATION Spec
 CONSTANT Part = "pairs"
-CONSTANT NRes = 3
-CONSTANT MaxLabels = 3
+CONSTANT NRes = 4
+CONSTANT MaxLabels = 2
 CONSTANT MaxCount = 3
-CONSTANT MaxO2 = 1
-CONSTANT O2Twice = FALSE
+CONSTANT MaxO2 = 2
+CONSTANT O2Twice = TRUE
 CONSTANT StackFlagsFull = FALSE
 INVARIANT EdgeExclusive
 INVARIANT PairMaximal
-INVARIANT PairSound
 CHECK_DEADLOCK FALSE
